@@ -81,6 +81,118 @@ theorem tryCore_nil (b : M Val) : tryCore b [] none = b := by
 
 theorem tryFinally_none (b : M Val) : tryFinally b none = b := M_ext _ _ (no_finally b)
 
+/-! ### except clauses as syntax: the type test (`accepts`) and the block (`body`) -/
+
+/-- the shapes of an except clause whose type test is made explicit in the refinement -/
+inductive ClauseShape where
+  | bare (st : Node)                                   -- `except { st }`
+  | typed (s0 : Node) (ss : List Node) (st : Node)     -- `except "T0", "T1", … { st }`
+  | other                                              -- anything else: kept as a whole handler
+
+/-- reads the shape off the children (decidable; `other` whenever in doubt) -/
+def clauseShape (c : Node) : ClauseShape :=
+  match allSome c.children with
+  | some [st] => .bare st
+  | some kids =>
+    match kids.takeWhile (·.name == "string"), kids.dropWhile (·.name == "string") with
+    | s0 :: ss, [st] => if st.name = "statements" then .typed s0 ss st else .other
+    | _, _ => .other
+  | none => .other
+
+theorem mem_takeWhile_p {α : Type} (p : α → Bool) : ∀ (l : List α) (x : α), x ∈ l.takeWhile p → p x = true
+  | [], _, h => by simp at h
+  | a :: l, x, h => by
+    simp only [List.takeWhile_cons] at h
+    split at h
+    · rename_i hp
+      rcases List.mem_cons.1 h with rfl | h
+      · exact hp
+      · exact mem_takeWhile_p p l x h
+    · simp at h
+
+theorem clauseShape_bare {c st : Node} (h : clauseShape c = .bare st) : c.children = [some st] := by
+  unfold clauseShape at h
+  split at h
+  · rename_i st' hk; cases h; simpa using allSome_eq _ _ hk
+  · split at h
+    · split at h <;> cases h
+    · cases h
+  · cases h
+
+theorem clauseShape_typed {c s0 st : Node} {ss : List Node} (h : clauseShape c = .typed s0 ss st) :
+    c.children = ((s0 :: ss) ++ [st]).map some ∧ (∀ x ∈ s0 :: ss, x.name = "string") ∧ st.name = "statements" := by
+  unfold clauseShape at h
+  split at h
+  · cases h
+  · rename_i _ kids _ hk
+    split at h
+    · rename_i s0' ss' st' htw hdw
+      split at h
+      · rename_i hst
+        cases h
+        have hkids : kids = (s0 :: ss) ++ [st] := by
+          rw [← List.takeWhile_append_dropWhile (p := (·.name == "string")) (l := kids), htw, hdw]
+        refine ⟨by rw [allSome_eq _ _ hk, hkids], ?_, hst⟩
+        intro x hx
+        have : x ∈ kids.takeWhile (·.name == "string") := by rw [htw]; exact hx
+        simpa using mem_takeWhile_p _ _ _ this
+      · cases h
+    · cases h
+  · cases h
+
+/-- the block of a handled clause: in the clause's child scope -/
+def clauseBody (g : Nat → Node → Stmt) (sc : Nat) (c st : Node) : Stmt :=
+  .scoped (do newChild sc (← scopeName c)) (fun evs => g evs st)
+
+/-- one except clause `c` in front of `rest` -/
+def clauseOfNode (g : Nat → Node → Stmt) (f'' sc : Nat) (c : Node) (rest : Clauses) : Clauses :=
+  match clauseShape c with
+  | .bare st => .clause (fun _ => pure (.bool true)) (fun _ => clauseBody g sc c st) rest
+  | .typed s0 ss st =>
+    .clause (fun e => do
+        let b ← typedMatch (errType e) bytesToString ((s0 :: ss).map fun ch => eval f'' sc ch)
+        pure (.bool b))
+      (fun _ => clauseBody g sc c st) rest
+  | .other => .opaque (exceptHandler (f''+1) sc c) rest
+
+/-- the except clauses of a try node, in source order -/
+def clauseStmts (g : Nat → Node → Stmt) (f'' sc : Nat) : List Node → Clauses
+  | [] => .nil
+  | c :: cs => if c.name == "except" then clauseOfNode g f'' sc c (clauseStmts g f'' sc cs) else clauseStmts g f'' sc cs
+
+theorem handlers_clauseOfNode (g : Nat → Node → Stmt) (f'' sc : Nat) (c : Node) (rest : Clauses)
+    (hg : ∀ sc n, Impl.exec (g sc n) = eval f'' sc n) :
+    Impl.handlers (clauseOfNode g f'' sc c rest) = exceptHandler (f''+1) sc c :: Impl.handlers rest := by
+  unfold clauseOfNode
+  cases hs : clauseShape c with
+  | bare st =>
+    simp only [Impl.handlers, clauseBody, Impl.exec, hg]
+    congr 1; funext e
+    rw [exceptHandler_bare f'' sc c st e (clauseShape_bare hs)]
+    simp
+  | typed s0 ss st =>
+    obtain ⟨hc, hstr, hst⟩ := clauseShape_typed hs
+    simp only [Impl.handlers, clauseBody, Impl.exec, hg]
+    congr 1; funext e
+    rw [exceptHandler_typed f'' sc c s0 st ss e hc hstr hst]
+    simp only [bind_assoc, pure_bind]
+    congr 1; funext b
+    cases b <;> simp
+  | other => simp [Impl.handlers]
+
+theorem handlers_clauseStmts (g : Nat → Node → Stmt) (f'' sc : Nat)
+    (hg : ∀ sc n, Impl.exec (g sc n) = eval f'' sc n) : ∀ clauses : List Node,
+    Impl.handlers (clauseStmts g f'' sc clauses) = tryHandlers (f''+1) sc clauses
+  | [] => rfl
+  | c :: cs => by
+    have ih := handlers_clauseStmts g f'' sc hg cs
+    unfold clauseStmts
+    by_cases hc : (c.name == "except") = true
+    · rw [if_pos hc, handlers_clauseOfNode g f'' sc c _ hg, ih]
+      simp [tryHandlers, List.filter_cons, hc]
+    · rw [if_neg hc, ih]
+      simp [tryHandlers, List.filter_cons, hc]
+
 /-- the block of an otherwise / finally clause `c`, read in scope `x` -/
 def blockOf (g : Nat → Node → Stmt) (f' x : Nat) (c : Node) : Stmt :=
   match c.children with
@@ -111,31 +223,31 @@ theorem othOf_exec (g : Nat → Node → Stmt) (f' sc : Nat) (clauses : List Nod
   | some o => simp [Impl.exec, blockOf_exec g f' _ o hg]
 
 /-- the try block in its scope with the except clauses (whole handlers, source order) and otherwise -/
-def tryInner (g : Nat → Node → Stmt) (f' sc : Nat) (n body : Node) (clauses : List Node) : Stmt :=
+def tryInner (g : Nat → Node → Stmt) (f' sc : Nat) (n body : Node) (clauses : List Node) (cl : Clauses) : Stmt :=
   .scoped (do newChild sc (← scopeName n)) (fun tvs =>
-    .try_ (g tvs body) (clausesOf (tryHandlers f' sc clauses)) (clauses.find? (·.name == "otherwise")).isSome
+    .try_ (g tvs body) cl (clauses.find? (·.name == "otherwise")).isSome
       (othOf g f' sc clauses) false (.leaf (pure Val.null)))
 
-theorem tryInner_exec (g : Nat → Node → Stmt) (f' sc : Nat) (n body : Node) (clauses : List Node)
-    (hg : ∀ sc n, Impl.exec (g sc n) = eval f' sc n) :
-    Impl.exec (tryInner g f' sc n body clauses) = (do
+theorem tryInner_exec (g : Nat → Node → Stmt) (f' sc : Nat) (n body : Node) (clauses : List Node) (cl : Clauses)
+    (hg : ∀ sc n, Impl.exec (g sc n) = eval f' sc n) (hcl : Impl.handlers cl = tryHandlers f' sc clauses) :
+    Impl.exec (tryInner g f' sc n body clauses cl) = (do
       let tvs ← newChild sc (← scopeName n)
       tryCore (eval f' tvs body) (tryHandlers f' sc clauses) (tryOtherwise f' sc clauses)) := by
   unfold tryInner
-  simp only [Impl.exec, handlers_clausesOf, hg, othOf_exec g f' sc clauses hg, Bool.false_eq_true, if_false,
+  simp only [Impl.exec, hcl, hg, othOf_exec g f' sc clauses hg, Bool.false_eq_true, if_false,
     tryFinally_none, bind_assoc]
 
 /-- a whole try node: when its last clause is `finally`, the scope of that block is made first and the block
     is deferred around everything else -/
-def tryOf (g : Nat → Node → Stmt) (f' sc : Nat) (n body last : Node) (clauses : List Node) : Stmt :=
+def tryOf (g : Nat → Node → Stmt) (f' sc : Nat) (n body last : Node) (clauses : List Node) (cl : Clauses) : Stmt :=
   if last.name = "finally" then
     .scoped (do newChild sc (← scopeName last)) (fun fs =>
-      .try_ (tryInner g f' sc n body clauses) .nil false (.leaf (pure Val.null)) true (blockOf g f' fs last))
-  else tryInner g f' sc n body clauses
+      .try_ (tryInner g f' sc n body clauses cl) .nil false (.leaf (pure Val.null)) true (blockOf g f' fs last))
+  else tryInner g f' sc n body clauses cl
 
-theorem tryOf_exec (g : Nat → Node → Stmt) (f' sc : Nat) (n body last : Node) (clauses : List Node)
-    (hg : ∀ sc n, Impl.exec (g sc n) = eval f' sc n) :
-    Impl.exec (tryOf g f' sc n body last clauses) = (do
+theorem tryOf_exec (g : Nat → Node → Stmt) (f' sc : Nat) (n body last : Node) (clauses : List Node) (cl : Clauses)
+    (hg : ∀ sc n, Impl.exec (g sc n) = eval f' sc n) (hcl : Impl.handlers cl = tryHandlers f' sc clauses) :
+    Impl.exec (tryOf g f' sc n body last clauses cl) = (do
       let fin ← tryFin f' sc last
       tryFinally (do
         let tvs ← newChild sc (← scopeName n)
@@ -143,11 +255,11 @@ theorem tryOf_exec (g : Nat → Node → Stmt) (f' sc : Nat) (n body last : Node
   unfold tryOf
   by_cases hfn : last.name = "finally"
   · rw [if_pos hfn]
-    simp [Impl.exec, tryInner_exec g f' sc n body clauses hg, Impl.handlers, tryCore_nil, tryFin, hfn,
+    simp [Impl.exec, tryInner_exec g f' sc n body clauses cl hg hcl, Impl.handlers, tryCore_nil, tryFin, hfn,
       blockOf_exec g f' _ last hg]
   · rw [if_neg hfn]
     have hfin : tryFin f' sc last = pure none := by simp [tryFin, hfn]
-    simp only [tryInner_exec g f' sc n body clauses hg, hfin, pure_bind, tryFinally_none]
+    simp only [tryInner_exec g f' sc n body clauses cl hg hcl, hfin, pure_bind, tryFinally_none]
 
 mutual
 /-- a tree as a statement of the fragment (leaf = anything else, evaluated by `eval`) -/
@@ -175,7 +287,11 @@ def stmtOf : Nat → Nat → Node → Stmt
       match f, allSome n.children with
       | f'+1, some (body :: clauses) =>
         match (body :: clauses).getLast? with
-        | some last => tryOf (fun sc' c => stmtOf f' sc' c) f' sc n body last clauses
+        | some last =>
+          tryOf (fun sc' c => stmtOf f' sc' c) f' sc n body last clauses
+            (match f' with
+             | 0 => clausesOf (tryHandlers 0 sc clauses)
+             | f''+1 => clauseStmts (fun sc' c => stmtOf f'' sc' c) f'' sc clauses)
         | none => .leaf (eval (f'+2) sc n)
       | _, _ => .leaf (eval (f+1) sc n)
     else .leaf (eval (f+1) sc n)
@@ -237,7 +353,10 @@ theorem eval_is_impl : ∀ (f : Nat), (∀ sc n, Impl.exec (stmtOf f sc n) = eva
                   | none => simp [Impl.exec]
                   | some last =>
                     simp only []
-                    rw [tryOf_exec _ f' sc n body last clauses ihf',
+                    rw [tryOf_exec _ f' sc n body last clauses _ ihf' (by
+                        cases f' with
+                        | zero => exact handlers_clausesOf _
+                        | succ f'' => exact handlers_clauseStmts _ f'' sc (ih f'' (by omega)).1 clauses),
                       eval_try_is_tryFinally_tryCore_dispatchExcept f' sc n body last clauses h4 hc hl]
                 · simp [Impl.exec]
               · simp [h1, h2, h3, h4, Impl.exec]
